@@ -330,6 +330,19 @@ def serveConsumers (N : Net Addr Prefix) (cfg : Cfg Prefix) (ranges : List (MRan
     (wire : List (Bytes × Bytes)) : Consumers :=
   consumers N ranges c (serve N cfg c wire).clientIP
 
+/-- selectionpolicies.go `CookieHashSelection.Select`, the `Secure` attribute of the sticky cookie:
+    `isProxyHttps := false; if trusted { xfp, xfpOk, _ := lastHeaderValue(req.Header, "X-Forwarded-Proto"); isProxyHttps = xfpOk && xfp == "https" }`,
+    `if req.TLS != nil || isProxyHttps { cookie.Secure = true }` — `req` is the PREPARED request -/
+def cookieSecureOf (c : Conn) (trustedVar : Bool) (prepared : Header) : Bool :=
+  c.tls || (trustedVar && (lastHeaderValue prepared kXFP).ok && decide ((lastHeaderValue prepared kXFP).value = sHttps))
+
+/-- one request under the `cookie` selection policy: is the sticky cookie `Secure`?
+    (`none` = `prepareRequest` failed, no upstream is selected) -/
+def cookieSecure (N : Net Addr Prefix) (cfg : Cfg Prefix) (c : Conn) (wire : List (Bytes × Bytes)) : Option Bool :=
+  (prepareRequest N cfg c (determineTrustedProxy N cfg c (fromWire wire)).1
+      (applyOmit cfg (fromWire wire))).map
+    (cookieSecureOf c (determineTrustedProxy N cfg c (fromWire wire)).1)
+
 /-! ### the proxy retry loop (reverseproxy.go `ServeHTTP` / `proxyLoopIteration`) -/
 
 /-- the request header operations (`headers.request`, Caddyfile `header_up`) the harness configures -/
